@@ -281,6 +281,34 @@ cJSON_bool cJSON_InsertItemInArray(cJSON *array, int which, cJSON *newitem)
     return 1;
 }
 /* SHP1: tail link not restored when the last of exactly two elements is removed */
+/* SHP3: queries against the list model */
+cJSON *bad_SHP3_item_at(const cJSON *array, size_t index)
+{
+    cJSON *c = (array != NULL) ? array->child : NULL;
+    while ((c != NULL) && (c->next != NULL) && (index > 0)) { index--; c = c->next; }
+    return c;
+}
+cJSON *good_item_at(const cJSON *array, size_t index)
+{
+    cJSON *c = (array != NULL) ? array->child : NULL;
+    for (; (index > 0) && (c != NULL); index--) { c = c->next; }
+    return c;
+}
+cJSON *bad_SHP3_last_member(const cJSON * const object, const char * const name)
+{
+    cJSON *c = NULL;
+    cJSON *found = NULL;
+    if ((object == NULL) || (name == NULL)) { return NULL; }
+    for (c = object->child; (c != NULL) && (c->string != NULL); c = c->next) { if (strcmp(name, c->string) == 0) { found = c; } }
+    return found;
+}
+cJSON *good_first_member(const cJSON * const object, const char * const name)
+{
+    cJSON *c = NULL;
+    if ((object == NULL) || (name == NULL)) { return NULL; }
+    for (c = object->child; (c != NULL) && (c->string != NULL); c = c->next) { if (strcmp(name, c->string) == 0) { return c; } }
+    return NULL;
+}
 cJSON *bad_SHP1_detach(cJSON *parent, cJSON * const item)
 {
     cJSON *head = parent->child;
